@@ -939,3 +939,38 @@ def units_check(ctx, f, cell_params, floor: int = 1):
                 ctx.check({ua, ub} != {"cells", "chars"} and "mixed" not in (ua, ub), f.fq, short(x), f"{f.module.relpath}:{x.lineno}", f"`{short(x)}` relates {ua or 'a unitless value'} to {ub or 'a unitless value'}",
                           f"`{short(x)}` in {f.qualname} relates a width in terminal cells to a character count (len): for double-width or zero-width characters the text is cropped / padded to the wrong width")
     ctx.floor(n, floor, f"unit-sensitive comparisons/subtractions in {f.qualname}")
+
+
+def chunk_source(fn_node, name: str):
+    """What a name that is WRITTEN piece by piece stands for.  Returns (source_name, kind) or None:
+      ('text', 'pieces')      name is the loop variable of `for name in text.splitlines(..)` - the pieces of text, in order
+      ('text', 'pieces-or-whole:<test>')  name is the loop variable of `for name in C` where every definition of C is
+                              `text.splitlines(True) if <test> else [text]` (or the two arms assigned under if/else): on the
+                              else side the loop runs once, with the whole text
+    str.splitlines(True) keeps the line ends, so the pieces concatenate to the text either way."""
+    def splitlines_of(e):
+        if isinstance(e, ast.Call) and isinstance(e.func, ast.Attribute) and e.func.attr == "splitlines" and isinstance(e.func.value, ast.Name):
+            keep = (e.args and isinstance(e.args[0], ast.Constant) and e.args[0].value is True) or any(k.arg == "keepends" and isinstance(k.value, ast.Constant) and k.value.value is True for k in e.keywords)
+            return e.func.value.id if keep else None
+        return None
+
+    def singleton_of(e):
+        if isinstance(e, (ast.List, ast.Tuple)) and len(e.elts) == 1 and isinstance(e.elts[0], ast.Name):
+            return e.elts[0].id
+        return None
+    for lp in walk_local(fn_node):
+        if not (isinstance(lp, ast.For) and isinstance(lp.target, ast.Name) and lp.target.id == name):
+            continue
+        src = splitlines_of(lp.iter)
+        if src:
+            return src, "pieces"
+        if isinstance(lp.iter, ast.Name):
+            defs = [x.value for x in walk_local(fn_node) if isinstance(x, ast.Assign) and len(x.targets) == 1 and isinstance(x.targets[0], ast.Name) and x.targets[0].id == lp.iter.id]
+            if len(defs) == 1 and isinstance(defs[0], ast.IfExp):
+                a, b = splitlines_of(defs[0].body), singleton_of(defs[0].orelse)
+                if a and a == b:
+                    return a, "pieces-or-whole:" + norm(defs[0].test)
+                a, b = singleton_of(defs[0].body), splitlines_of(defs[0].orelse)
+                if a and a == b:
+                    return a, "pieces-or-whole:not " + norm(defs[0].test)
+    return None
